@@ -2,7 +2,7 @@
 """regenerate MANIFEST.json from the table below"""
 import json
 props = [json.loads(l) for l in open('/verif/properties.jsonl')]
-TECH = "machine-checked proof in Coq on a hand-written model + differential correspondence check"
+TECH = "machine-checked proof in Coq on a hand-written model (+ translator-generated facts for the MQTT client) + differential correspondence check"
 CLAIMS = {
  "C08": dict(engine="coq+rs-core", design="DESIGN.md section 6 C08",
    text="18 Coq theorems (every non-zero word, every field list, no bound) about a hand-written model of packed.rs: unique (bits, capacity) representation, push/pop specs, length growth, failure leaves the key unchanged, FIFO law for arbitrary field lists, LSB bijection on all non-zero words, minimal bits_for. The model is tied to /repo on every run by a differential correspondence (dev and release profile) whose comparison is evaluated inside Coq.",
@@ -38,6 +38,24 @@ CLAIMS = {
  "C16": dict(engine="coq+rs-gen", design="DESIGN.md section 6 C16",
    text="Coq theorems: every explicit panic site of the model (unreachable!() arms, slice index, str slice, shifts) is unreachable: knext_bound, run_no_panic (well-typed values), trav_no_panic, path/json no panic, wide packed widths refused. Tie: malformed keys/payloads on generated programs in the dev and release profile under catch_unwind.",
    note="trusted: as C01; partial: panics inside serde-json-core, postcard, heapless, itoa, core and memory safety are outside the model; NodeIter's loop no-panic is shown by simulation for total targets only"),
+ "C17": dict(engine="coq+py", design="DESIGN.md section 6 C17",
+   text="9 Coq theorems about the sequential dispatcher both Python clients funnel every message through (coq/Py.v): for any message history and any set of other in-flight requests the completions of a request are those of its own entry run alone (dispatch_projection), foreign / unknown / code-less messages are inert, at most one completion, Continue payloads in order then the final Ok payload, error code and text raised, nothing without a final message, the synchronous client delivers what the asynchronous one does; _Path.normalize keeps paths absolute. Tie: the real sync (threads) and async (event loop) clients over stub paho / aiomqtt vs the model, evaluated inside Coq.",
+   note="trusted: Coq kernel; hand-written model of _dispatch and the tail of _do; stub transports; partial: thread / event-loop scheduling, uuid1 uniqueness and timeouts are the environment"),
+ "C07": dict(engine="coq+rs-mqtt", design="DESIGN.md section 6 C07",
+   text="Coq theorems over the step model of MqttClient::update (coq/Mqtt.v; transition table and limits regenerated from lib.rs by the translator on every run): exact answer of every request kind (on_message_answers), at most one immediate response on the request's response topic with its correlation data, busy refusal leaves the pending answer untouched, requests change the protocol state only from Single, no response without a request; a list answer spread over ANY schedule of update() calls and capacities refines 'take the next slots leaves' (list_refines): one Continue per leaf in iteration order, then one Ok. Tie: the real client on an in-memory broker stub under request / back-pressure / partial-write / fault schedules, compared step by step inside Coq; Stage C evaluates the property text on the packet log.",
+   note="trusted: Coq kernel; translator; hand-written model of update()/poll()/iter_list(); minimq, the socket, the broker and the clock are the environment (can_publish, acceptance counts, SessionReset observed per call); the settings tree enters as an oracle (json::get/set_by_key on a clone)"),
+ "C10": dict(engine="coq+rs-mqtt", design="DESIGN.md section 6 C10",
+   text="Coq theorems: pump_dump_det (one call takes the next n leaves in order, each once; absent skipped, oversize reported with code Error on the leaf topic), dump_refines (for EVERY schedule of calls, capacities and interleaved requests the state-action outputs equal the abstract walk), chunks partition a prefix of the leaf list and the whole list at completion, the client is back in Single then; the initial dump covers all leaves. Tie and Stage C as C07, with values around the transmit-buffer size, absent leaves, API and MQTT-requested dumps.",
+   note="trusted: as C07; 'value too large' is minimq's verdict (observed), the payload of each message is compared with json::get on the settings at the time of the call"),
+ "C13": dict(engine="coq+rs-mqtt", design="DESIGN.md section 6 C13",
+   text="Coq theorems: startup_monitor (for every history of environments every update() satisfies the start-up monitor over a history variable: alive first and once per epoch, then the subscription which arms the timer, the decision to dump no earlier than DUMP_TIMEOUT after it, the full dump started once, no settings value published before, nothing else looks like alive/subscribe), restart on disconnection / session reset / API reset, DUMP_TIMEOUT = 2000 ms from the source. Tie: drops, refused connects, session-present/absent reconnects, withheld SUBACKs, partial writes, early retained Sets; Stage C checks order, timing, the will of every CONNECT, the subscription filter/no-local flag and liveness of the dump on the packet log.",
+   note="trusted: as C07; clock readings are inputs (the theorem compares the readings the client saw); the retained empty will is checked on the CONNECT packets only (constructor code is not modelled)"),
+ "C14": dict(engine="coq+rs-mqtt", design="DESIGN.md section 6 C14",
+   text="Coq theorems: update() reports a change iff the request handled in that call is a non-empty payload on prefix/settings<path> accepted by the tree (changed_iff_set_ok, changed_only_by_message); step_no_panic / run_no_panic (none of the process_event unwraps can fail in any state under any environment, for every history); over-long response topic / correlation data refused with an Error response and nothing cached; foreign topics ignored; limits 128/32 from the source. Tie: arbitrary topics / payloads / property lengths in every protocol state, pipelined requests, values around the buffer size, under catch_unwind.",
+   note="trusted: as C07; panics inside minimq / serde-json-core / heapless and the unwraps on minimq results (publish after can_publish) are outside the model and covered by the correspondence runs only"),
+ "C18": dict(engine="coq+py+rs-mqtt", design="DESIGN.md section 6 C18",
+   text="Coq theorems composing the device model with the Python dispatcher model through to_py (coq/E2E.v): get yields the JSON value, an accepted set completes normally, every Error response raises with the device's code and text, a list accepted when idle is answered over any schedule by exactly the leaf paths in iteration order; response-code wire strings vs the Python literals, topic layout and correlation-data length (16 <= 32) agree (facts regenerated from both sources by the translator). Tie: real Python clients encode the requests, the real Rust client answers, its packets are fed unchanged into the Python dispatchers; results vs the device oracle and vs the model.",
+   note="trusted: as C07 and C17; broker routing, UTF-8 decoding and json.loads are the environment"),
 }
 checks = []
 for p in props:
@@ -51,10 +69,12 @@ m = dict(version=1, setup_cmd="./check --setup",
   hooks=dict(guard="cargo feature `verif` of miniconf_mqtt (off by default)",
              enable="harness/rs-mqtt depends on miniconf_mqtt with features=[\"verif\"]; no other harness needs hooks",
              baseline_off_cmd="cd /repo && cargo test --workspace --no-fail-fast --offline --lib --tests",
-             source_commits=["bae3dc6"], add_only=True),
+             source_commits=["bae3dc6", "2f7f58a"], add_only=True),
   engines=[dict(name="coq", path="coq/", serves_properties=sorted(CLAIMS), kind_free_text="Coq 8.16 development: models, proofs, pinned property files (coq/Properties)"),
            dict(name="rs-core", path="harness/rs-core", serves_properties=[k for k in ["C08", "C15"] if k in CLAIMS], kind_free_text="Rust harness over /repo's miniconf for Packed and the string splitters"),
            dict(name="rs-gen", path="harness/rs-gen + lib/gen", serves_properties=[k for k in ["C01","C02","C03","C04","C06","C09","C11","C12","C16"] if k in CLAIMS], kind_free_text="generated derive programs (python generator, Rust emitter, sharded cargo workspace built against /repo) + common harness crate"),
+           dict(name="rs-mqtt", path="harness/rs-mqtt + translator/", serves_properties=[k for k in ["C07","C10","C13","C14","C18"] if k in CLAIMS], kind_free_text="real MqttClient on an in-memory socket and MQTT5 broker stub (feature verif probes); translator regenerates coq/Generated.v from lib.rs and the Python sources"),
+           dict(name="py", path="harness/py", serves_properties=[k for k in ["C17","C18"] if k in CLAIMS], kind_free_text="real sync / async Python clients over stub paho / aiomqtt; e2e driver"),
            dict(name="check", path="check", serves_properties=sorted(CLAIMS), kind_free_text="python runner: stage A (proof), B (tie), C (search for a failing input), evidence")],
   checks=checks,
   not_applicable=[dict(property_id=p['id'], reason="check not built yet (planned with the same technique, see DESIGN.md section 6); not claimed in this commit") for p in props if p['id'] not in CLAIMS],
